@@ -150,6 +150,29 @@ ASSUME ndJsonSerialize("sharedcu_quick.ndjson", SetToSeq(SharedCUQuick))
 ASSUME ndJsonSerialize("sharedcu_all.ndjson", SetToSeq(SharedCUAll))
 ASSUME PrintT(<<"SHAREDCU", Cardinality(SharedCUQuick), Cardinality(SharedCUAll)>>)
 
+(***************************************************************************)
+(* Emulation on the parallel engine (-parallel; every acceptance case of   *)
+(* cases.go exists in a parallel variant): work-groups of one kernel run   *)
+(* on different emulated CUs in different goroutines, so per-work-group    *)
+(* state (LDS) must not be shared between CUs.  Local-memory workloads     *)
+(* with at least two work-groups, each repeated (a race need not show in   *)
+(* one run).  Quick: stencil2d and pagerank (gcn3), the size class with    *)
+(* the most work-groups, three repetitions.                                *)
+(***************************************************************************)
+PCase(w, p, a, r) ==
+  [w |-> w, names |-> Names[w], p |-> p,
+   c |-> [mode |-> "emu", gpu |-> "none", arch |-> a, n |-> 1, dist |-> "plain", umem |-> 0],
+   parallel |-> TRUE, rep |-> r, wgs |-> LocalMemWGs(w, p)]
+ParallelAll ==
+  UNION {{PCase(w, p, a, r) : p \in {q \in SeqSet(SizeClasses(w)) : LocalMemWGs(w, q) >= 2}, a \in Archs(w), r \in 1..3}
+         : w \in LocalMemWorkloads}
+MostWGs(w) == CHOOSE p \in SeqSet(SizeClasses(w)) : \A q \in SeqSet(SizeClasses(w)) : LocalMemWGs(w, q) <= LocalMemWGs(w, p)
+ParallelQuick == {PCase(w, MostWGs(w), "gcn3", r) : w \in {"stencil2d", "pagerank"}, r \in 1..3}
+ASSUME ParallelQuick \subseteq ParallelAll
+ASSUME ndJsonSerialize("parallel_quick.ndjson", SetToSeq(ParallelQuick))
+ASSUME ndJsonSerialize("parallel_all.ndjson", SetToSeq(ParallelAll))
+ASSUME PrintT(<<"PARALLEL", Cardinality(ParallelQuick), Cardinality(ParallelAll)>>)
+
 Init == x = 0
 Next == UNCHANGED x
 =============================================================================
